@@ -90,6 +90,7 @@ structure Registry where
   dims : Dict DimDef := []                         -- `_dimensions`
   baseUnits : List String := []                    -- `_base_units`
   casei : Dict (List String) := []                 -- `_units_casei` (sets, in insertion order)
+  prefixed : List String := []                     -- `_prefixed_units` (registered on the fly; F4 repair)
   caseSensitive : Bool := true
   lower : List (Char × Char) := []                 -- non-ASCII lower-casing table (generated)
   deriving Repr, Inhabited, DecidableEq
@@ -115,6 +116,7 @@ def addUnitKey (R : Registry) (key : String) (d : UnitDef) : Registry :=
   let lk := lowerStr R.lower key
   let old := (R.casei.find? lk).getD []
   { R with units := R.units.insert key d,
+           prefixed := R.prefixed.filter (· != key),
            casei := R.casei.insert lk (if old.contains key then old else old ++ [key]) }
 
 def unitKeys (d : UnitDef) : List String :=
@@ -179,7 +181,10 @@ def yieldTriplets (R : Registry) (s : String) (cs : Bool) : List (String × Stri
         let name := if x.isEmpty then name else name.take (name.length - x.length)
         if !x.isEmpty && name.length == 1 then []
         else if cs then
-          match R.units.find? (String.ofList name) with
+          let nm := String.ofList name
+          -- (F4 repair) a prefixed unit registered on the fly is not a stem for further prefixes
+          if !p.isEmpty && R.prefixed.contains nm then [] else
+          match R.units.find? nm with
           | some d => [(pf.2.name, d.name, sf.2)]
           | none => []
         else
@@ -253,7 +258,9 @@ def getName (R : Registry) (s : String) (cs : Option Bool := none) : Except Err 
       if p != "" then
         match R.prefixedDef p u cs with
         | .error e => .error e
-        | .ok d => .ok (p ++ u, { R with units := R.units.insert (p ++ u) d })
+        | .ok d => .ok (p ++ u, { R with units := R.units.insert (p ++ u) d,
+                                          prefixed := if R.prefixed.contains (p ++ u) then R.prefixed
+                                                      else R.prefixed ++ [p ++ u] })
       else .ok (u, R)
 
 /-- the loop of `_parse_units_as_container` after tokenisation: canonical names, optional
